@@ -519,7 +519,7 @@ def gen_roles_program(rng):
     p.exact_only = True
     p.sources = [0, 1]
     g = 10
-    tmpl = rng.choice(['writer-moves', 'require-flips', 'reader-becomes-written', 'mix'])
+    tmpl = rng.choice(['writer-moves', 'require-flips', 'reader-becomes-written', 'writer-becomes-reader', 'mix'])
     v1, v2 = 1, 2      # exact views of source values 0 and 1
     def on(view, then, els=('D',)):
         return ('R', 0, 0, ('I', ('l', view), then, els))
@@ -531,6 +531,12 @@ def gen_roles_program(rng):
         p.tasks[1] = on(v1, ('Q', 2, 0, ('D',)))
         p.tasks[2] = on(v2, ('Q', 1, 0, ('D',)))
         p.tasks[0] = ('R', 1, 0, ('D',))
+    elif tmpl == 'writer-becomes-reader':
+        # task 1 writes g in one state and only reads it in the other, where task 3 reads it too (nobody writes it then)
+        p.tasks[1] = on(v1, ('W', g, 0, ('k', 5), ('D',)), ('R', g, 0, ('D',)))
+        p.tasks[3] = on(v2, ('R', g, 0, ('D',)))
+        p.tasks[0] = ('R', 1, 0, ('D',))
+        p.tasks[2] = ('Q', 3, 0, ('D',)) if rng.random() < 0.5 else ('D',)
     elif tmpl == 'reader-becomes-written':
         p.tasks[3] = on(v1, ('R', g, 0, ('D',)))
         p.tasks[1] = on(v2, ('W', g, 0, ('k', 7), ('D',)))
